@@ -53,6 +53,7 @@ TOYS = ('complete', 'incomplete', 'rolemix', 'stale')
 NRUN = {'quick': 4, 'thorough': 96}
 RUN_PARALLEL = {'quick': 4, 'thorough': 12}
 BIG = 300          # option products above this are thinned in quick
+LAYOUTS = ('multi', 'single', 'multi0')
 MANY = 32          # quick: more assignments than this -> dims rotate
 
 
@@ -188,29 +189,37 @@ def enumerate_cases(listing, tier, seed):
                         # (assignment, solids), rotating with the seed
                         j += 1
                         dims = [dims[(j + seed) % len(dims)]]
-                    for dim in dims:
+                    for di, dim in enumerate(dims):
                         alt = (k + seed) % 2 == 0
+                        # array layouts (single / several arrays per role
+                        # with different particle counts / one of them
+                        # empty) rotate over the cases of a configuration
+                        # and, with the index, over the configurations
+                        lay = [LAYOUTS[(k + seed + i) % 3]
+                               for i in range(3)]
                         cleans = [True, False] if tier == 'thorough' \
                             else [alt]          # quick: clean alternates
-                        for clean in cleans:
+                        for li, clean in enumerate(cleans):
                             add(s, k, dim=dim, solids=solids, clean=clean,
                                 opts=o, integrator=integ, chooser=False,
-                                route='flip')
+                                route='flip', layout=lay[li])
                         second = ['same', 'flip1'][((k + seed) // 4) % 2]
-                        if tier == 'thorough' or (k + seed) % 4 == 0:
+                        if (k + seed) % (2 if tier == 'thorough' else 4) \
+                                == 0:
                             add(s, k // 4, dim=dim, solids=solids,
                                 clean=not alt, opts=o, integrator=integ,
-                                chooser=False, route=second)
+                                chooser=False, route=second, layout=lay[2])
                         k += 1
         # every scheme once more through a SchemeChooser (defaults, and a
         # seed-chosen option assignment), for each dim / solids
         picks = [(dict(s['defaults']), 'same'),
                  (combos[rng.randrange(len(combos))], 'flip')]
-        for o, route in picks:
+        for pi, (o, route) in enumerate(picks):
             for solids in solid_vals:
-                for dim in s['dims']:
+                for di, dim in enumerate(s['dims']):
                     add(s, 0, dim=dim, solids=solids, clean=True, opts=o,
-                        integrator=None, chooser=True, route=route)
+                        integrator=None, chooser=True, route=route,
+                        layout=LAYOUTS[(pi + di + seed) % 3])
     for i, c in enumerate(cases):
         c['id'] = case_id(c)
     # distinct ids
@@ -229,6 +238,8 @@ def case_id(c):
     if r == 'flip1':
         r += ':' + ','.join(k for k in sorted(c['opts'])
                             if c['ctor_opts'][k] != c['opts'][k])
+    if c.get('layout', 'single') != 'single':
+        r += '/' + c['layout']
     return '%s[%s]d%d%s%s%s%s/%s' % (
         c['cls'].split(':')[1], o, c['dim'],
         '+solid' if c['solids'] else '',
@@ -326,6 +337,9 @@ def describe(t, r):
     for w in v['witnesses']:
         parts.append('%s (%s) array %r lacks %s' % (
             w['cls'], w['role'], w['array'], sorted(w['missing'])))
+    if 'PerArray' in v['failed']:
+        parts.append('per-array data (lengths, orig_idx) wrong in %s' %
+                     sorted(v['badarrays']))
     if 'Generated' in v['failed']:
         parts.append('code generation: %s %s' % (t['gen']['kind'],
                                                  t['gen']['msg'][:200]))
@@ -370,7 +384,7 @@ def pick_runs(chk, cases, traces, verdicts, n, rng, skip=()):
     ok = {}
     for c, t, r in zip(cases, traces, verdicts):
         if r['v']['failed'] or not t['gen']['ok'] or c['chooser'] \
-                or t['scheme'] in skip:
+                or t['scheme'] in skip or c['layout'] != 'single':
             continue
         ok.setdefault(t['scheme'], []).append(c)
     schemes = sorted(ok)
@@ -416,8 +430,13 @@ def selftest(chk, cases, known_ids):
     for arr in c['arrays']:
         if arr['name'] == 'fluid':
             arr['props'].remove('x0')        # WCSPHStep.initialize
+    d = json.loads(json.dumps(tr))
+    d['id'] = 'lens'
+    for arr in d['arrays']:
+        if arr['name'] == 'solid':
+            arr['lens'][0]['size'] += 1      # a property of another length
     tr['id'] = 'intact'
-    verdicts, st = validate(chk, [tr, a, b, c], 'st')
+    verdicts, st = validate(chk, [tr, a, b, c, d], 'st')
     for r in verdicts:
         print('SELFTEST VERDICT %s' % json.dumps(r))
     by = {r['v']['id']: r for r in verdicts}
@@ -430,6 +449,8 @@ def selftest(chk, cases, known_ids):
           in names('explicit') and
           any(w[2] == 'solid' and w[3] == ('h',) for w in names('implied'))
           and ('WCSPHStep', 'stepper', 'fluid', ('x0',)) in names('stepper')
+          and by['lens']['v']['failed'] == ['PerArray']
+          and by['lens']['v']['badarrays'] == ['solid']
           and all('Complete' in by[i]['v']['failed'] and
                   not by[i]['v']['explained']
                   for i in ('explicit', 'implied', 'stepper')))
@@ -603,6 +624,8 @@ def check(chk):
         per_scheme=per_scheme,
         traces_validated_against_impl=len(verdicts) + len(rverdicts),
         evaluations=len(traces),
+        layouts={r: sum(1 for c in cases if c.get('layout') == r)
+                 for r in LAYOUTS},
         routes={r: sum(1 for c in cases if c.get('route', 'same') == r)
                 for r in ('flip', 'flip1', 'same')},
         configurations_code_generated=sum(1 for t in traces
@@ -621,7 +644,11 @@ def check(chk):
              'is constructed with ANOTHER value of every option and the '
              'assignment is applied by scheme.configure before '
              'configure_solver; flip1: one option differs at construction; '
-             'same: constructed with the assignment) driven through the real '
+             'same: constructed with the assignment) and an array layout '
+             '(single: fluids=[fluid], solids=[solid] or []; multi: three '
+             'fluids and two solids with DIFFERENT particle counts, one '
+             'fluid holding a single particle; multi0: that fluid is '
+             'empty; layouts rotate over the cases) driven through the real '
              'configure / configure_solver / setup_properties / '
              'get_equations / get_solver and the real code generator; '
              'quick: every option assignment (enumerations of more than 3 '
@@ -640,16 +667,23 @@ def check(chk):
     ))
     chk.assumptions += [
         'plain arrays: get_particle_array(name, x, y, z, h, m, rho) on a '
-        'small lattice; fluids=["fluid"], solids=[] or ["solid"] (EDAC also '
-        'inviscid_solids=["wall"]); constructor arguments from the table in '
-        'checks/c12_driver.py',
+        'small lattice; fluids=["fluid"] or ["fluid","fluid2","fluid3"] '
+        '(16/5/1 or 0 particles in 2-D), solids=[], ["solid"] or '
+        '["solid","solid2"] (EDAC also inviscid_solids=["wall"]); '
+        'constructor arguments from the table in checks/c12_driver.py',
+        'any exception raised by construct / configure / configure_solver / '
+        'setup_properties / get_equations / get_solver on these inputs '
+        'fails the SetUp clause (never masked); PerArray: every property '
+        'has one value per particle of its own array, orig_idx is the own '
+        'index or left untouched (IISPH leaves it to create_particles)',
         'options: booleans of the constructor signature, flags and choices '
         'of add_user_options, and the numeric options that toggle equations '
         '(nu, alpha, pb: off / on); other numeric options keep their '
         'defaults (they do not change the set of equations)',
         'names read by py_initialize / reduce / py_stageN through dst.array '
         'are not visible in a signature and are covered by the run leg only',
-        'the run leg is exploration: a seed-rotated subset, 3 steps of '
+        'the run leg is exploration: a seed-rotated subset of the single '
+        'layout, 3 steps of '
         'dt=1e-4 from rest with e, p, cs, V, rho0, h0 initialised as a '
         'create_particles would; PCISPH on a periodic block; ISPHScheme '
         'needs scipy (not installed): recorded as unavailable',
